@@ -35,7 +35,20 @@ MeshQ == << <<3,1,1>>, <<1,1,5>>, <<-1,-2,1>>, <<1,4,1>> >>
 Normals == << <<1,0,0>>, <<0,0,1>>, <<1,2,2>>, <<-3,0,4>>, <<2,-1,2>> >>
 Normals2 == << <<1,0,0>>, <<0,1,0>>, <<3,4,0>>, <<-1,1,0>> >>
 
+\* a folded sheet (floor z = 0 and wall x = 2) with its unfolded uv map; queries on the half lattice (doubled)
+FoldV == << <<0,0,0>>, <<2,0,0>>, <<0,2,0>>, <<2,2,0>>, <<2,0,2>>, <<2,2,2>> >>
+FoldF == << <<0,1,3>>, <<0,3,2>>, <<1,4,5>>, <<1,5,3>> >>
+FoldUV == << <<0,0,0>>, <<2,0,0>>, <<0,2,0>>, <<2,2,0>>, <<4,0,0>>, <<4,2,0>> >>
+FoldQ == << <<2,1,1>>, <<1,3,2>>, <<3,2,3>>, <<-2,1,1>>, <<2,1,-2>>, <<6,2,2>>, <<3,1,0>>, <<1,2,7>> >>
+\* (max distance, max angle) in sixteenths: no cap / distance cap 3/4 / angle cap 1/2 rad
+Caps == << <<800, 48>>, <<12, 48>>, <<800, 8>> >>
+\* outlines for from_points_ccw: counter-clockwise and clockwise triangles, a dart (three hull vertices), a pentagon, a clockwise square
+Outlines == << <<P(0,0), P(4,0), P(0,3)>>, <<P(0,0), P(0,3), P(4,0)>>, <<P(0,0), P(2,1), P(4,0), P(2,4)>>, <<P(2,4), P(4,0), P(2,1), P(0,0)>>,
+               <<P(1,0), P(3,0), P(4,2), P(2,4), P(0,2)>>, <<P(0,0), P(0,2), P(2,2), P(2,0)>> >>
+
 Cases ==
+    {[m |-> "rigid", op |-> "meshopt", dim |-> 3, T |-> T, vpos |-> FoldV, faces |-> FoldF, uv |-> FoldUV, qs |-> FoldQ, md16 |-> Caps[c][1], ang16 |-> Caps[c][2]] : T \in Motions3, c \in 1..3} \cup
+    {[m |-> "rigid", op |-> "ccw", dim |-> 2, T |-> T, pts |-> Outlines[k], fc |-> fc] : T \in Motions2, k \in 1..6, fc \in BOOLEAN} \cup
     {[m |-> "rigid", op |-> "sp", dim |-> 2, T |-> T, p |-> <<1,2,0>>, n |-> Normals2[k], qs |-> Queries2] : T \in Motions2, k \in 1..4} \cup
     {[m |-> "rigid", op |-> "sp", dim |-> 3, T |-> T, p |-> <<1,2,-1>>, n |-> Normals[k], qs |-> Queries3] : T \in Motions3, k \in 1..5} \cup
     {[m |-> "rigid", op |-> "curve", dim |-> 2, T |-> T, T2 |-> Mot2(3, 2), pts |-> c, fc |-> FALSE, ls |-> <<0, 1, 3, 4, 7>>, qs |-> Queries2] : T \in Motions2, c \in Curves2} \cup
